@@ -142,6 +142,9 @@ def subclasscheck(t1, t2):
     if o1 or o2:
         o1 = o1 or t1
         o2 = o2 or t2
+        if not isinstance(o1, type) or not isinstance(o2, type):
+            # e.g. typing.Union[A, B] against list[A]: not a class
+            return False
         if issubclass(o1, o2):
             if o2 is t2:  # pragma: no cover
                 return True
